@@ -39,6 +39,16 @@ func genC08(t *rapid.T) CaseC08 {
 		c.Conds = genCondsFrom(t, 0, 2, cands)
 		c.UsePath = len(c.Conds) > 0 && rapid.Bool().Draw(t, "usepath")
 		return c
+	case 2:
+		// the empty string as a member name on the way to the searched key ("a..k" is a path of three segments)
+		var c CaseC08
+		c.Map, c.Steps, c.Key = boostEmptyKey(t)
+		c.Sep = ":"
+		var cands []interface{}
+		refValuesForKey(c.Map, c.Key, &cands)
+		c.Conds = genCondsFrom(t, 0, 2, cands)
+		c.UsePath = len(c.Conds) > 0 && rapid.Bool().Draw(t, "usepath")
+		return c
 	case 1:
 		var c CaseC08
 		c.Map, c.Steps, c.Key, c.Conds = boostFilter(t)
